@@ -368,6 +368,9 @@ pub enum IoTarget {
     JournalCreate,
     JournalTruncate,
     DirSync,
+    /// any create / write / sync / rename below the meta keyspace (keyspaces/0) while
+    /// `Database::delete_keyspace` is running
+    MetaDuringDelete,
 }
 
 #[derive(Serialize, Deserialize, Clone, Debug, PartialEq, Eq)]
